@@ -101,13 +101,16 @@ fn collect_derive(s: synstructure::Structure) -> TokenStream {
     let where_clause = if mode == Mode::RequireStatic {
         quote!(where Self: 'static)
     } else {
-        override_bound
+        // The string must be a where clause and nothing else: it is spliced in front of the
+        // generated impl body, so any trailing tokens would replace that body.
+        match override_bound
             .as_ref()
-            .map(|x| {
-                x.parse()
-                    .expect("`#[collect]` failed to parse explicit trait bound expression")
-            })
-            .unwrap_or_else(|| quote!())
+            .map(|x| x.parse::<Option<syn::WhereClause>>())
+        {
+            None => quote!(),
+            Some(Ok(clause)) => clause.to_token_stream(),
+            Some(Err(err)) => return err.to_compile_error(),
+        }
     };
 
     let mut errors = vec![];
